@@ -35,9 +35,12 @@ func (r *replayChooser) Choose(c *vsched.Choice) int {
 }
 
 // RunPrefix executes body once under the given choice prefix.
+// SwitchChoice is passed to the scheduler by RunPrefix (see vsched.Options.SwitchChoice).
+var SwitchChoice bool
+
 func RunPrefix(prefix []int, sigs []uint64, trace bool, body func()) (*vsched.Result, string) {
 	ch := &replayChooser{prefix: prefix, sigs: sigs}
-	r := vsched.Run(ch, vsched.Options{Trace: trace}, body)
+	r := vsched.Run(ch, vsched.Options{Trace: trace, SwitchChoice: SwitchChoice}, body)
 	if ch.div == "" && ch.i < len(prefix) {
 		ch.div = fmt.Sprintf("replay divergence: execution ended after %d choices, prefix has %d", ch.i, len(prefix))
 	}
